@@ -24,6 +24,7 @@ SUBJ_ATOMS = [
     (1, [ord('_')]), (2, [ord(' ')]), (1, [ord('\n')]), (1, [ord('-')]),
     (2, [0xE9]), (1, [0xC9]), (1, [0x436]), (1, [0x20AC]),
     (4, [HI, LO]), (2, [HI2, LO2]), (2, [HI]), (2, [LO]), (1, [LO, HI]),
+    (1, [HI, HI, LO]), (1, [HI, LO, LO]), (1, [LO, HI, LO]),          # surrogate adjacency: H-H-L, H-L-L, L-H-L
 ]
 
 LIT_ASCII = list("abcAB1_ -")
@@ -489,6 +490,20 @@ def gen_starts(rng, subj):
 TEMPLATES = ["[$&]", "<$1|$2>", "$`|$'", "$$-$<na1>-$<nb2>", "$0$10$01", "x", "", "$<zz>$"]
 
 
+TEMPLATE_PIECES = ["$$", "$&", "$`", "$'", "$1", "$2", "$3", "$0", "$00", "$01", "$02", "$10", "$11", "$99", "$<na1>", "$<nb2>", "$<zz>", "$<",
+                   "$<na1", "$", "$x", "$ ", "a", "-", ">", "<", "0", "1", "\u00e9", "\U0001F600"]
+
+
+def gen_template(rng):
+    """replacement templates over every GetSubstitution form (and their near misses), ending in a lone '$' now and then"""
+    n = rng.choice([0, 1, 2, 3, 4, 5])
+    t = "".join(rng.choice(TEMPLATE_PIECES) for _ in range(n))
+    t = t.replace("\\u00e9", "\u00e9").replace("\\U0001F600", "\U0001F600")
+    if rng.random() < 0.15:
+        t += "$"
+    return t
+
+
 def gen_case(rng, cid):
     flags = gen_flags(rng)
     ast, g = gen_pattern(rng, "u" in flags)
@@ -496,7 +511,7 @@ def gen_case(rng, cid):
     subj = gen_subject(rng)
     starts = gen_starts(rng, subj)
     limit = rng.choice([0, 1, 2, 3, 5])
-    tmpl = rng.choice(TEMPLATES)
+    tmpl = rng.choice(TEMPLATES) if rng.random() < 0.3 else gen_template(rng)
     modes = GEN_MODES[cid % len(GEN_MODES)] if isinstance(cid, int) else "gexec"
     if rng.random() < 0.08:
         modes = ",".join(GEN_MODES)
@@ -536,15 +551,16 @@ def run_sharded(cmd, lines, nproc=16, timeout=120, one_timeout=20):
             return None
         return res
 
-    def work(idx):
-        res = run(idx, timeout)
+    def work(idx, t=None):
+        t = t or timeout
+        res = run(idx, t)
         if res is not None:
             return list(zip(idx, res))
-        pairs = []
-        for i in idx:                      # isolate the slow / crashing line(s)
-            r = run([i], one_timeout)
-            pairs.append((i, r[0] if r else None))
-        return pairs
+        if len(idx) == 1:
+            r = run(idx, one_timeout)                      # alone, once more
+            return [(idx[0], r[0] if r else None)]
+        mid = len(idx) // 2                                # isolate the slow / crashing line(s) by bisection
+        return work(idx[:mid], max(one_timeout, t // 2)) + work(idx[mid:], max(one_timeout, t // 2))
 
     with concurrent.futures.ThreadPoolExecutor(max_workers=nproc) as ex:
         for pairs in ex.map(work, shards):
@@ -922,9 +938,11 @@ def run_rx(ctx, h, model, cases, nproc=16):
             lines.append(rx_line(c, vid, p))
             meta.append((c, vid, p, ast))
     t0 = time.time()
-    outs = run_sharded([h], lines, nproc, 600, 60)
+    outs = run_sharded([h], lines, nproc, max(600, 5 * len(lines) // max(1, nproc)), 120)
     ctx.stats["rx_harness_s"] = round(ctx.stats.get("rx_harness_s", 0) + time.time() - t0, 1)
+    ctx.log("rx harness done: %d lines, %d without answer" % (len(lines), sum(1 for o in outs if o is None)))
     parsed = [parse_rx(o) for o in outs]
+    shrink_deadline = [time.time() + 240]                  # wall budget for delta debugging of engine deviations
 
     # ---------------- model queries: one `pred` per line + `iter` per distinct raw-list request
     mlines, mkey = [], []
@@ -955,7 +973,8 @@ def run_rx(ctx, h, model, cases, nproc=16):
                 mkey.append((i, (tag, tname)))
     mres = {}
     if model and mlines:
-        mo = run_sharded([model], mlines, 4, 600, 60)
+        mo = run_sharded([model], mlines, 4, max(600, len(mlines) // 8), 120)
+        ctx.log("rx model done: %d lines" % len(mlines))
         for (i, k), o in zip(mkey, mo):
             if o is None:
                 continue
@@ -1206,15 +1225,17 @@ def run_rx(ctx, h, model, cases, nproc=16):
                             sig = "engine:regexp2-deviates-nonunicode"
                             try:
                                 def holds(a2, s2, f2):
-                                    if "u" in f2:
+                                    if "u" in f2 or time.time() > shrink_deadline[0]:
                                         return False
                                     c2 = {"id": "shrink", "flags": f2, "subject": s2, "starts": [0], "limit": 1, "template": "", "modes": "gexec"}
-                                    o2 = run_sharded([h], [rx_line(c2, "base", render_src(a2))], 1, 120, 120)[0]
+                                    o2 = run_sharded([h], [rx_line(c2, "base", render_src(a2))], 1, 40, 40)[0]
+                                    if o2 is None:
+                                        return False
                                     d2 = parse_rx(o2)
                                     if "tblr" not in d2 or d2["tblr"] == "-":
                                         return False
                                     toks2, ncap2, _ = render_lean(a2, False)
-                                    ro = run_sharded([model], ["ref %s %s %d 0 0 %s" % (f2 or "-", hx(s2), ncap2, toks2)], 1, 120, 120)[0]
+                                    ro = run_sharded([model], ["ref %s %s %d 0 0 %s" % (f2 or "-", hx(s2), ncap2, toks2)], 1, 40, 40)[0]
                                     if ro is None:
                                         return False
                                     ref2 = [None if r == "x" else [int(x) for x in r.split(".")] for r in ro.split("|")]
@@ -1323,7 +1344,7 @@ def main(ctx):
     run_syntax(ctx, h)
 
     # ---- rx: corpus first, then generated (70 % outside the circumstances of the known divergences)
-    n_cases = 2000 if thorough else 220
+    n_cases = 1200 if thorough else 220
     cases = corpus_cases() + corp_cases
     for i in range(n_cases):
         c = gen_case(rng, i)
